@@ -217,15 +217,25 @@ impl IncrementalEngine {
                     match cmd {
                         EngineCommand::InsertDelta { relation, updates } => {
                             if let Some(session) = input_sessions.get_mut(&relation) {
+                                // Writers take their logical time before they reach this
+                                // worker, and a consistent read may have advanced the input
+                                // past that time in between. `update_at` panics on a time
+                                // below the session's epoch (killing this worker: every later
+                                // call fails with "Worker disconnected"), so such an update is
+                                // applied at the current epoch instead.
+                                let epoch = *session.time();
                                 for (data, time, diff) in updates {
-                                    session.update_at(data, time, diff);
+                                    session.update_at(data, time.max(epoch), diff);
                                 }
                             }
                         }
 
                         EngineCommand::AdvanceTime(time) => {
                             for session in input_sessions.values_mut() {
-                                session.advance_to(time);
+                                // never move an input backwards (two readers may race)
+                                if *session.time() < time {
+                                    session.advance_to(time);
+                                }
                                 session.flush();
                             }
                             worker.step();
@@ -459,7 +469,13 @@ impl IncrementalEngine {
 
     /// Read with consistency: advance time past all writes, wait, then read.
     pub fn read_relation_consistent(&self, relation: &str) -> Result<Vec<Tuple>, String> {
-        let max_time = self.max_write_time.load(Ordering::SeqCst);
+        // Go past every write time AND past the current epoch: an update that arrived with a
+        // time below the epoch was applied at the epoch (see InsertDelta), so the read has to
+        // close that epoch too to see it.
+        let max_time = self
+            .max_write_time
+            .load(Ordering::SeqCst)
+            .max(self.current_time.load(Ordering::SeqCst));
         let target = max_time + 1;
         self.advance_time(target)?;
         self.wait_until_caught_up(target)?;
